@@ -217,13 +217,16 @@ def deep_histories(thorough=False):
     plain = dict(src=dict(h=0, p=0), rport=0, tmpl=[], os=False, beh=QUIET)
     ok = dict(h=1, p=5001)
     out = []
-    for depths in ([1, 8, 16, 17, 64], [200, 480], [500, 520], [700]) + (([400, 1200], [2000]) if thorough else ()):
-        for inner in (b'/a\0\0,i\0\0\0\0\0\7', b''):
-            ev = [dict(op='create', kind='exact', path=codes('/a'), **plain), dict(op='create', kind='matching', path=codes('/a'), **plain)]
-            for k, dep in enumerate(depths):
-                ev.append(dict(op='recv', dg=list(deep_bundle(dep, inner)), src=ok, via=1))
-                ev.append(dict(op='recv', v=g.M('/a', [g.I(k)]), src=ok, via=1))
-            out.append(ev)
+    msg = b'/a\0\0,i\0\0\0\0\0\7'
+    sets = [([1, 16, 17, 64], msg), ([480, 520], msg), ([700], msg), ([200, 520], b'')]
+    if thorough:
+        sets += [([8, 400, 1200], msg), ([2000], msg), ([1, 17, 700], b'')]
+    for depths, inner in sets:
+        ev = [dict(op='create', kind='exact', path=codes('/a'), **plain), dict(op='create', kind='matching', path=codes('/a'), **plain)]
+        for k, dep in enumerate(depths):
+            ev.append(dict(op='recv', dg=list(deep_bundle(dep, inner)), src=ok, via=1))
+            ev.append(dict(op='recv', v=g.M('/a', [g.I(k)]), src=ok, via=1))
+        out.append(ev)
     return out
 
 
@@ -328,7 +331,7 @@ def sim_histories(ctx, num, cfg='DispatchModel_sim.cfg', depth=14, seed_off=1, s
         for act, st in b[1:]:
             op = st['op']
             if op['op'] == 'hostile':
-                dg = {'empty': b'', 'garbage': b'\xff' * 7, 'deep': deep_bundle(600, b'/a\0\0,\0\0\0')}[op['k']]
+                dg = {'empty': b'', 'garbage': b'\xff' * 7, 'deep': deep_bundle(40, b'/a\0\0,\0\0\0')}[op['k']]
                 ev.append(dict(op='recv', src=op['src'], via=op['via'], dg=list(dg)))
             elif op['op'] == 'recv':
                 m = op['m']
@@ -592,7 +595,7 @@ def run(ctx):
     step = max(1, len(hs) // (2 * len(deep) + 1))
     for k, h in enumerate(deep):
         hs.insert((2 * k + 1) * step, dict(kind='dispatch', ev=h, src='deep'))
-        if k % 2 == 0:
+        if k in (1, 2) or (thorough and k % 2 == 0):      # the deep ones also through the real receive thread
             hs.insert((2 * k + 2) * step, dict(kind='dispatch', ev=h, src='deep/udp', udp=True))
     ctx.cov['spec_behaviours_replayed'] = sum(1 for h in hs if h['src'] == 'model')
     # every fault datagram once, each followed by a normal message
